@@ -1,6 +1,6 @@
 # table consumed by tools_manifest.py
 ENGINES = [
-    {"name": "vv", "path": "vv/", "serves_properties": ["C02", "C04", "C05", "C06", "C07", "C09", "C12", "C13", "C15", "C17", "C18", "C19"], "kind_free_text": "runtime monitors: generators, independent flatbuffer reader/writer, compile drivers, sharded worker harness, evidence/findings"},
+    {"name": "vv", "path": "vv/", "serves_properties": ["C02", "C03", "C04", "C05", "C06", "C07", "C09", "C12", "C13", "C15", "C17", "C18", "C19"], "kind_free_text": "runtime monitors: generators, independent flatbuffer reader/writer, compile drivers, sharded worker harness, evidence/findings"},
 ]
 NOTES = ("Technique family: runtime monitoring and sanitizers. Every check runs the real code from /repo's working tree (codec rebuilt from the C "
          "sources on every run) under generated workloads with oracles observing executions; verdicts are violated / held-on-what-was-observed / "
@@ -110,3 +110,12 @@ check("C12", "exploration",
       "parsed from the console summary and the summary CSV at least the extent the plan requires.",
       "Console figures are printed with two decimals: their display rounding (0.005 KiB) is tolerated; the CSV is judged exactly. Arena area per memory mode as documented.",
       "offline artefact checker (arena plan, lifetimes, footprints, reports)", "DESIGN.md 4/C12")
+
+check("C03", "exploration",
+      "Trace replay with shadow state over output artefacts: each compiled model is replayed operator by operator with a per-region 'defined' interval set; graph inputs and CPU "
+      "operator outputs define their arena extents, every read of every decoded NPU operation and DMA (exact byte footprints incl. weights, scales and SHRAM table slots) must "
+      "hit defined bytes only, writes define bytes, kernel buffers invalidate table slots they cover, and every output tensor of an Ethos-U operator must be completely written. "
+      "Campaign over cascade-, buffering-, LUT- and alias-heavy families with small caches; reach counters (ops replayed, bytes checked, LUT DMAs/reads) are thresholded.",
+      "Monitor 1 (defined-before-use) decides uninitialised and never-written bytes; stale or foreign-tensor bytes are decided by the writer-tag / poison-differential monitors that "
+      "ride on the NPU executor (reported with C01 until merged).",
+      "offline trace replay with shadow memory (defined-before-use)", "DESIGN.md 4/C03")
